@@ -522,6 +522,27 @@ func c14Aliasing(c *fw.Ctx, env types.EnvType, r *rand.Rand, id string) {
 		case canon.Set:
 			srcs = []string{"base", "(set (seq base))", "(set nil)", "(hash-set)", "(set [])", "#{}", "(dissoc (hash-set :q) :q)", "[(set nil)]", "[#{}]", "{:s (set nil)}", "{:s #{}}", "{:s (hash-set)}", "(dissoc (conj base :zz) :zz)", "(with-meta base {:m 1})", "(with-meta base {:type :point})", "(with-meta base {:type :other :doc \"d\"})", "(with-meta (with-meta base {:type :point}) nil)", "(conj base :zz)", "(set (vec base))"}
 		}
+		// the very same value at several places of one operand, equal at the first occurrence and different (same kind,
+		// same size) at a later one: an answer for one occurrence says nothing about the next
+		mut := ""
+		switch {
+		case (base.K == canon.Vec || base.K == canon.List) && len(base.L) > 0:
+			mut = fmt.Sprintf("(assoc (vec base) %d :changed-here)", len(base.L)-1)
+		case base.K == canon.Map && len(base.M) > 0:
+			for k := range base.M {
+				mut = fmt.Sprintf("(assoc base %s :changed-here)", canon.Render(canon.KeyNode(k)))
+				break
+			}
+		case base.K == canon.Set && len(base.Mem) > 0:
+			for k := range base.Mem {
+				mut = fmt.Sprintf("(conj (dissoc base %s) :changed-here)", canon.Render(canon.KeyNode(k)))
+				break
+			}
+		}
+		srcs = append(srcs, "[base base base]", "(list base base)", "{:a base :b base}", "[[base] [base]]")
+		if mut != "" {
+			srcs = append(srcs, fmt.Sprintf("(assoc [base base base] 2 %s)", mut), fmt.Sprintf("(assoc [base base base] 0 %s)", mut), fmt.Sprintf("(list base %s)", mut), fmt.Sprintf("(assoc {:a base :b base} :b %s)", mut), fmt.Sprintf("[[base] [%s]]", mut), fmt.Sprintf("[%s base base]", mut))
+		}
 		var vals []types.MalType
 		var kept []string
 		for _, src := range srcs {
